@@ -2704,6 +2704,8 @@ int mergeconfmstring(char ***dst, char ***src) {
  * @return 1 if successful, 0 otherwise
  */
 int mergesrvconf(struct clsrvconf *dst, struct clsrvconf *src) {
+    if (src && src->secret)
+        dst->secret_len = src->secret_len; /* the length belongs to the secret that is about to be moved over */
     if (!mergeconfstring(&dst->name, src ? &src->name : NULL) ||
         !mergeconfmstring(&dst->hostsrc, src ? &src->hostsrc : NULL) ||
         !mergeconfstring(&dst->portsrc, src ? &src->portsrc : NULL) ||
